@@ -158,7 +158,7 @@ func HarnessEdKernelEffects(p0 int) {
 }
 
 // RaceEdReadOnly: native confirmation - two goroutines call the method on one shared value. The shared scalar is
-// the unreduced encoding of l+5, the shared point 2B.
+// the unreduced encoding of l+5+2^255 (as UnmarshalBinary accepts it), the shared point 2B.
 func RaceEdReadOnly(p0, p1 int) {
 	lb := primeOrder.Bytes()
 	var le [32]byte
@@ -166,6 +166,7 @@ func RaceEdReadOnly(p0, p1 int) {
 		le[len(lb)-1-i] = lb[i]
 	}
 	le[0] += 5
+	le[31] |= 0x80 // unreduced AND with the top bit set: every normalisation path of a decoder-produced scalar is taken
 	done := make(chan bool)
 	for round := 0; round < 20; round++ {
 		S, S2 := &scalar{}, &scalar{}
